@@ -5,11 +5,11 @@ import z3
 from engine import repo
 from engine.pathsym import symdata
 from engine.pathsym.core import Violation, model_value
-from . import h_core, oracle, ref, scenario
+from . import h_core, oracle, ref, scenario, tracecheck
 
 DEFAULTS = dict(filter='PrefixFilter', measure='JACCARD', k=3, kmin=0, thresholds=[0.5],
                 comp_ops=['>='], allow_empty=[True, False], allow_missing=[False], missing=False,
-                nonempty=False, kernel='real', props=None, mono=False, twin=False)
+                nonempty=False, kernel='real', props=None, mono=False, twin=False, validate_every=150)
 
 _BIND = None
 _COUNTER = [0]
@@ -142,6 +142,12 @@ def make(cfg_in):
         sample = None
         if _COUNTER[0] <= 2:
             sample = detail('-', '-', '-')(c.get_model())
-        return {'nontrivial': nontriv, 'tags': ['dropped=%r' % dropped], 'sample': sample}
+        tags = ['dropped=%r' % dropped]
+        if cfg['kernel'] == 'real' and not isinstance(s['threshold'], (type(None),)) and \
+                isinstance(s['threshold'], (int, float)):
+            vp = (props and sorted(props - {'CRASH'})[0]) or 'C04'
+            if tracecheck.maybe_validate(c, 'h_pair', detail(vp, 'trace-validation', '-'), cfg['validate_every'], vp):
+                tags.append('validated')
+        return {'nontrivial': nontriv, 'tags': tags, 'sample': sample}
 
     return h
